@@ -2,6 +2,7 @@ package p10
 
 import (
 	"fmt"
+	"hash/fnv"
 	"sort"
 	"strconv"
 	"strings"
@@ -79,7 +80,25 @@ func prioReadback(before, after snapshot, opTxs []int) []int {
 // resolveND handles an operation after which contested orphans left the orphan
 // pool.  prioField is the op's choice list on the line.  Returns "" to go on
 // comparing, or the token that ends the line.
-func (r *runner) resolveND(before, after snapshot, opTxs []int, i, field int) string {
+func fnv64(s string) uint64 {
+	h := fnv.New64a()
+	h.Write([]byte(s))
+	return h.Sum64()
+}
+
+func contestedAll(sn snapshot) int {
+	set := map[int]bool{}
+	for _, ids := range sn.byPrev {
+		if len(ids) >= 2 {
+			for _, id := range ids {
+				set[id] = true
+			}
+		}
+	}
+	return len(set)
+}
+
+func (r *runner) resolveND(before, after snapshot, opTxs []int, i, field int, obs string) string {
 	rb := prioReadback(before, after, opTxs)
 	if len(rb) == 0 {
 		return ""
@@ -95,7 +114,14 @@ func (r *runner) resolveND(before, after snapshot, opTxs []int, i, field int) st
 	}
 	if r.record {
 		if removed >= 2 {
-			return "nd"
+			// the order cannot be read back directly: record the outcome, the model side searches
+			// for an order of the contested orphans that reproduces it
+			if contestedAll(before) > 6 {
+				return "nd"
+			}
+			f[field] = "h" + strconv.FormatUint(fnv64(obs), 10)
+			r.ops[i] = strings.Join(f, ":")
+			return ""
 		}
 		f[field] = joinInts(rb)
 		r.ops[i] = strings.Join(f, ":")
@@ -103,6 +129,13 @@ func (r *runner) resolveND(before, after snapshot, opTxs []int, i, field int) st
 	}
 	if f[field] == "-" {
 		return "nd" // no choice recorded: both sides stop here
+	}
+	if strings.HasPrefix(f[field], "h") {
+		if f[field] == "h"+strconv.FormatUint(fnv64(obs), 10) {
+			return ""
+		}
+		r.steerFailed = true
+		return "nd-unreachable"
 	}
 	if f[field] == joinInts(rb) {
 		return ""
@@ -741,7 +774,7 @@ func (r *runner) run() string {
 					}
 				}
 				if want == 'C' {
-					if tok := r.resolveND(r.last, ev.sn, btxs, i+1+j, 6); tok != "" {
+					if tok := r.resolveND(r.last, ev.sn, btxs, i+1+j, 6, "-;"+ev.sn.text); tok != "" {
 						outs = append(outs, tok)
 						return strings.Join(outs, "|")
 					}
@@ -769,7 +802,7 @@ func (r *runner) run() string {
 			if f[0] == "O" {
 				field = 2
 			}
-			if tok := r.resolveND(before, r.last, opTxs, i, field); tok != "" {
+			if tok := r.resolveND(before, r.last, opTxs, i, field, line); tok != "" {
 				outs = append(outs, tok)
 				break
 			}
